@@ -90,3 +90,21 @@ def make_genomes(seed, n, nanc=2, length=1500, plant=('ATGAC',), rates=(0.0, 0.0
 		else:
 			out.append([s])
 	return out
+
+
+def write_listfile(path, lines, style=0):
+	"""Write a list file in one of several legitimate styles (all must be read the same way):
+	0 LF + final newline, 1 CRLF, 2 no final newline, 3 blank lines interleaved, 4 trailing blanks after each path."""
+	eol = '\r\n' if style == 1 else '\n'
+	out = []
+	for i, l in enumerate(lines):
+		out.append(l + ('  ' if style == 4 else ''))
+		if style == 3 and i % 2 == 0:
+			out.append('')
+	txt = eol.join(out)
+	if style != 2:
+		txt += eol
+	if style == 3:
+		txt = eol + txt
+	with open(path, 'w', encoding='utf-8', newline='') as f:
+		f.write(txt)
